@@ -21,14 +21,14 @@ Lemma grow_raw_ok :
     /\ a_shape (rd st' 2) = [2%nat; 3%nat] /\ a_data (rd st' 2) = [2; 3; 4; 2; 3; 4].
 Proof. eexists; eexists; split; [vm_compute; reflexivity | split; vm_compute; reflexivity]. Qed.
 Lemma grow_odl_raises :
-  tens_ufunc castQ NPadd st_grow rn3 1 MCall [OpTens rn3 0; OpArr 1] kw0 [] = Err EValue.
+  tens_ufunc castQ as_found NPadd st_grow rn3 1 MCall [OpTens rn3 0; OpArr 1] kw0 [] = Err EValue.
 Proof. vm_compute. reflexivity. Qed.
 
 Lemma call_complete_refuted :
   exists (NP : @npsem Q) st sp ins kw rins l st',
     map_opt tens_unwrap ins = Some rins
     /\ raw_ufunc castQ NP st MCall kw rins [None] = Ok (l, st')
-    /\ tens_ufunc castQ NP st sp 1 MCall ins kw [] = Err EValue.
+    /\ tens_ufunc castQ as_found NP st sp 1 MCall ins kw [] = Err EValue.
 Proof.
   exists NPadd, st_grow, rn3, [OpTens rn3 0; OpArr 1], kw0, [RopBuf 0; RopBuf 1].
   destruct grow_raw_ok as (l & st' & Hr & _). exists l, st'.
@@ -43,7 +43,7 @@ Definition rn3w : tspace := mkTS [3%nat] DF64 (WArr 1 DF64) 2.
 Definition kw32 : kwargs := mkKw AxAbsent false (Some DF32) [].
 Lemma dtype_kw_array_weighting_refuted :
   exists l st', raw_ufunc castQ NPneg32 st_grow MCall kw32 [RopBuf 0] [None] = Ok (l, st')
-  /\ tens_ufunc castQ NPneg32 st_grow rn3w 1 MCall [OpTens rn3w 0] kw32 [] = Err EValue.
+  /\ tens_ufunc castQ as_found NPneg32 st_grow rn3w 1 MCall [OpTens rn3w 0] kw32 [] = Err EValue.
 Proof. eexists; eexists; split; vm_compute; reflexivity. Qed.
 
 (* finding discr-reduce-negative-axis: np.add.reduce(y, axis=-1) with y in
@@ -56,7 +56,7 @@ Definition kwm1 : kwargs := mkKw (AxInt (-1)) false None [].
 Lemma discr_reduce_negative_axis_refuted :
   (exists l st', raw_ufunc castQ NPadd st_d MReduce kwm1 [RopBuf 0] [None] = Ok (l, st')
                  /\ a_shape (rd st' 1) = [2%nat] /\ a_data (rd st' 1) = [3; 12])
-  /\ disc_ufunc castQ NPadd st_d d23 1 MReduce [OpDisc d23 0] kwm1 [] = Err EValue.
+  /\ disc_ufunc castQ as_found NPadd st_d d23 1 MReduce [OpDisc d23 0] kwm1 [] = Err EValue.
 Proof.
   split; [eexists; eexists; split; [vm_compute; reflexivity | split; vm_compute; reflexivity]
          | vm_compute; reflexivity].
@@ -64,18 +64,18 @@ Qed.
 (* the same call with the equivalent non-negative axis succeeds, on the partition of axis 0 *)
 Definition kwp1 : kwargs := mkKw (AxInt 1) false None [].
 Example discr_reduce_axis1_ok :
-  exists rs st', disc_ufunc castQ NPadd st_d d23 1 MReduce [OpDisc d23 0] kwp1 [] = Ok ([OpDisc rs 1], st')
+  exists rs st', disc_ufunc castQ as_found NPadd st_d d23 1 MReduce [OpDisc d23 0] kwp1 [] = Ok ([OpDisc rs 1], st')
     /\ ds_axes rs = [mkAx 0 1 2 (1#2) 1] /\ a_data (rd st' 1) = [3; 12].
 Proof. eexists; eexists; split; [vm_compute; reflexivity | split; vm_compute; reflexivity]. Qed.
 
 (* the hypotheses of the positive theorems are satisfiable: a plain call *)
 Definition st_ok : @store Q := [mkArr DF64 [3%nat] [1; 2; 3]; mkArr DF64 [3%nat] [1; 1; 1]].
 Example call_ok :
-  exists st', tens_ufunc castQ NPadd st_ok rn3 1 MCall [OpTens rn3 0; OpArr 1] kw0 [] = Ok ([OpTens rn3 2], st')
+  exists st', tens_ufunc castQ as_found NPadd st_ok rn3 1 MCall [OpTens rn3 0; OpArr 1] kw0 [] = Ok ([OpTens rn3 2], st')
     /\ a_data (rd st' 2) = [2; 3; 4].
 Proof. eexists; split; vm_compute; reflexivity. Qed.
 Example call_out_ok :
-  exists st', tens_ufunc castQ NPadd st_ok rn3 1 MCall [OpTens rn3 0; OpArr 1] kw0 [Some (OpTens rn3 0)]
+  exists st', tens_ufunc castQ as_found NPadd st_ok rn3 1 MCall [OpTens rn3 0; OpArr 1] kw0 [Some (OpTens rn3 0)]
               = Ok ([OpTens rn3 0], st')
     /\ a_data (rd st' 0) = [2; 3; 4] /\ length st' = 2%nat.
 Proof. eexists; split; [vm_compute; reflexivity | split; vm_compute; reflexivity]. Qed.
@@ -87,3 +87,14 @@ Proof.
          | |- context [match ?e with _ => _ end] => destruct e; try discriminate
          end; intros E; inversion E; reflexivity.
 Qed.
+
+(* with the repaired variants the three refuting inputs succeed and agree with NumPy *)
+Example grow_repaired_ok :
+  exists sp' st', tens_ufunc castQ repaired NPadd st_grow rn3 1 MCall [OpTens rn3 0; OpArr 1] kw0 []
+                  = Ok ([OpTens sp' 2], st')
+    /\ ts_shape sp' = [2%nat; 3%nat] /\ a_data (rd st' 2) = [2; 3; 4; 2; 3; 4].
+Proof. eexists; eexists; split; [vm_compute; reflexivity | split; vm_compute; reflexivity]. Qed.
+Example negaxis_repaired_ok :
+  exists rs st', disc_ufunc castQ repaired NPadd st_d d23 1 MReduce [OpDisc d23 0] kwm1 [] = Ok ([OpDisc rs 1], st')
+    /\ ds_axes rs = [mkAx 0 1 2 (1#2) 1] /\ a_data (rd st' 1) = [3; 12].
+Proof. eexists; eexists; split; [vm_compute; reflexivity | split; vm_compute; reflexivity]. Qed.
